@@ -410,6 +410,13 @@ def replay(path):
         print('self-hosting is re-run by ./check C01')
         return main('quick', w.get('seed', 0))
     wit = w['witness']
+    if c.get('layer') == 'cross':
+        r = common.compat_single(c['interpreter'], {'op': 'run', 'src': c['src'], 'optsets': [['replay', wit['opts']]], 'case_timeout': 60})
+        print(json.dumps(r, indent=1)[:4000])
+        if r.get('violations') and not (static_mech(c['src'], wit['opts'], wit.get('out')) or static_object_mech(c['src'], wit['opts'])):
+            print('VIOLATION property=%s replay=%s' % (PROP, path))
+            return 1
+        return 0
     r = run_case({'shape': c['shape'], 'src': c['src'], 'optsets': [(wit.get('optset', 'replay'), wit['opts'])]})
     print(json.dumps(r, indent=1)[:4000])
     if r.get('violations'):
